@@ -1,10 +1,643 @@
 /-
 C14, property theorems about the TRANSLATED encoders (`marshal` of every message of both stacks
-except certificateRequestMsg; see DESIGN.md 12.4).  Same namespace as Props/C14.lean; listed in
-checks/C14.json under extra_props_files.
+except certificateMsg and certificateRequestMsg; see DESIGN.md 12.4).  Same namespace as Props/C14.lean;
+listed in checks/C14.json under extra_props_files.
+
+`Gotlcp.Src.tlcp.codec.*.marshal` / `Gotlcp.Src.dtlcp.codec.*.marshal`, `dtlcpMarshalHeader`,
+`dtlcpWriteHeader` and `*.messageType` are regenerated from {tlcp,dtlcp}/handshake_messages.go by
+`harness/cmd/go2lean` on every run, statement by statement; `cryptobyte.Builder` is the stub `cbBuilder`
+(`X.AddUintNLengthPrefixed(func(b){BODY})` = BODY on a fresh child, then `X.addLengthPrefixed (N/8) child`),
+whose methods `Gotlcp.Tie.CbBuilder` specifies.  `Gotlcp.Tie.CodecEnc*` prove every translated marshal equal
+to the hand model's encoder (`Gotlcp.Model.Codec` / `Model.CodecDtlcp`, instantiated with the regenerated
+facts) on the abstracted fields.  Below:
+
+  * `C14_src_enc_<msg>_<stack>`     the tie, for every FRESH message object (`raw` empty): the marshal returns a
+                                     nil error exactly when the model encoder returns `some b`, the bytes then are
+                                     `b`, `m.raw` is set to them and nothing else changes; when the model refuses
+                                     the marshal returns the builder's error, no bytes, and `m` untouched;
+  * `C14_src_enc_cached_<stack>`    with the cache filled (`raw` non-empty) every marshal returns `raw` unchanged;
+  * `C14_src_enc_ok_iff_*`, `…_refuses_*`, `…_wf_*`   which objects are refused: exactly the over-long fields the
+                                     model refuses; every in-range object (the spec's `wf…`) is encoded;
+  * `C14_src_enc_complete_*`        what a successful marshal returns is a complete message of the right type
+                                     whose 24-bit length field is the body length — stated with the predicates the
+                                     translated `tlcpIsCompleteMessage` / `dtlcpIsCompleteMessage` compute;
+  * `C14_src_enc_roundtrip_*`       ROUND TRIP ON TRANSLATED CODE: `unmarshal (marshal m).bytes` accepts and returns
+                                     the fields of `m`, for in-range `m`, whatever the receiver held — composed with
+                                     the decoder ties of Props/C14.lean, C14SrcSmall.lean, C14SrcCH.lean, C14SrcSH.lean.
+
+certificateMsg.marshal / certificateRequestMsg.marshal write the message through a moving window `y := x[k:]`
+of the result; value semantics cannot express that, the translator's alias analysis refuses both, and they stay
+with model + correspondence (an earlier translation of certificateMsg.marshal was found wrong by this tie: the
+generated definition left the certificate list zeroed; alias.go now counts `m.raw = x` as a read of `x`).
 -/
-import Gotlcp.Tie.CbString
+import Gotlcp.Props.C14
+import Gotlcp.Props.C14SrcSmall
+import Gotlcp.Props.C14SrcCH
+import Gotlcp.Props.C14SrcSH
+import Gotlcp.Tie.CodecEncFacts
 
 namespace Gotlcp.Props.C14
+open Gotlcp Gotlcp.Wire Gotlcp.Wire.Msg
+open Gotlcp.Model.Codec
+open Gotlcp.Tie.CbBuilder (bld oapp w16 BV)
+open Gotlcp.Tie.UnmarshalTlcpCodec (abs)
+open Gotlcp.Tie.UnmarshalDtlcpCodec (hdrView)
+
+/-- everything the translator was asked for was translated; the literals in the translated encoders (message
+types, extension codes, trusted-authority identifier types, the 32-byte random) are the regenerated facts
+the model encoders are instantiated with -/
+theorem C14_src_enc_codes :
+    Src.untranslated = [] ∧
+    [codesT.tClientHello, codesT.tServerHello, codesT.tServerKeyExchange, codesT.tServerHelloDone,
+      codesT.tCertificateVerify, codesT.tClientKeyExchange, codesT.tFinished] = [1, 2, 12, 14, 15, 16, 20] ∧
+    [codesD.tClientHello, codesD.tServerHello, codesD.tHelloVerifyRequest, codesD.tServerKeyExchange,
+      codesD.tServerHelloDone, codesD.tCertificateVerify, codesD.tClientKeyExchange, codesD.tFinished] =
+      [1, 2, 3, 12, 14, 15, 16, 20] ∧
+    [codesT.extServerName, codesT.extTrustedCAKeys, codesT.extStatusRequest, codesT.extSupportedCurves,
+      codesT.extSignatureAlgorithms, codesT.extALPN, codesT.extClientID] = [0, 3, 5, 10, 13, 16, 66] ∧
+    [codesD.extServerName, codesD.extTrustedCAKeys, codesD.extStatusRequest, codesD.extSupportedCurves,
+      codesD.extSignatureAlgorithms, codesD.extALPN, codesD.extClientID] = [0, 3, 5, 10, 13, 16, 66] ∧
+    [codesT.taPreAgreed, codesT.taX509Name, codesT.taKeyHash, codesT.taCertHash] = [0, 2, 4, 5] ∧
+    [codesD.taPreAgreed, codesD.taX509Name, codesD.taKeyHash, codesD.taCertHash] = [0, 2, 4, 5] ∧
+    codesT.randomLen = 32 ∧ codesD.randomLen = 32 := by
+  decide
+
+/-! ## the builder stub -/
+
+/-- `cbBuilder` under the abstraction `bld` (`none` = `Bytes()` returns an error): the translated methods are
+the model's combinators — append, and the length-prefixed vectors `vec8` / `vec16` / `vec24`, which fail
+exactly when the child failed or does not fit the prefix; `Bytes()` returns the abstracted bytes -/
+theorem C14_src_enc_builder (b child : Src.tlcp.codec.cbBuilder) (x : List (BitVec 8)) (v : BitVec 16) :
+    bld ({} : Src.tlcp.codec.cbBuilder) = some [] ∧
+    bld (Src.tlcp.codec.cbBuilder.AddBytes b x) = oapp (bld b) (some (abs x)) ∧
+    bld (Src.tlcp.codec.cbBuilder.AddUint16 b v) = oapp (bld b) (some (w16 v).bytes) ∧
+    bld (Src.tlcp.codec.cbBuilder.addLengthPrefixed b 1 child) = oapp (bld b) ((bld child).bind vec8) ∧
+    bld (Src.tlcp.codec.cbBuilder.addLengthPrefixed b 2 child) = oapp (bld b) ((bld child).bind vec16) ∧
+    bld (Src.tlcp.codec.cbBuilder.addLengthPrefixed b 3 child) = oapp (bld b) ((bld child).bind vec24) ∧
+    (match bld b with
+      | some r => ∃ bs, Src.tlcp.codec.cbBuilder.Bytes b = (bs, none) ∧ abs bs = r
+      | none => Src.tlcp.codec.cbBuilder.Bytes b = ([], some Go.Error.other)) :=
+  ⟨rfl, Tie.CbBuilder.bld_addBytes b x, Tie.CbBuilder.bld_addUint16 b v, Tie.CbBuilder.bld_addLP1 b child,
+    Tie.CbBuilder.bld_addLP2 b child, Tie.CbBuilder.bld_addLP3 b child, Tie.CbBuilder.bytes_bld b⟩
+
+/-- the dtlcp group's copy of the builder is the same functions on an isomorphic type -/
+theorem C14_src_enc_builder_dtlcp (b child : Src.dtlcp.codec.cbBuilder) (k : Int) (x : List (BitVec 8)) :
+    Tie.CbBuilder.cv (Src.dtlcp.codec.cbBuilder.AddBytes b x) = Src.tlcp.codec.cbBuilder.AddBytes (Tie.CbBuilder.cv b) x ∧
+    Tie.CbBuilder.cv (Src.dtlcp.codec.cbBuilder.addLengthPrefixed b k child) =
+      Src.tlcp.codec.cbBuilder.addLengthPrefixed (Tie.CbBuilder.cv b) k (Tie.CbBuilder.cv child) ∧
+    Src.dtlcp.codec.cbBuilder.Bytes b = Src.tlcp.codec.cbBuilder.Bytes (Tie.CbBuilder.cv b) :=
+  ⟨Tie.CbBuilder.dtlcp_AddBytes b x, Tie.CbBuilder.dtlcp_addLengthPrefixed b k child, Tie.CbBuilder.dtlcp_Bytes b⟩
+
+/-! ## tlcp: the ties -/
+
+section SrcEncTlcp
+open Gotlcp.Tie.CodecEnc
+open Gotlcp.Src.tlcp.codec
+
+/-- **`finishedMsg.marshal`** = `encFinished` -/
+theorem C14_src_enc_finished_tlcp (m : finishedMsg) (h : m.raw = []) :
+    EncAgree (fun r => { m with raw := r }) m (finishedMsg.marshal m) (encFinished codesT ⟨abs m.verifyData⟩) :=
+  tie_enc_finished m h
+
+/-- **`certificateVerifyMsg.marshal`** = `encCertificateVerify` -/
+theorem C14_src_enc_certificateVerify_tlcp (m : certificateVerifyMsg) (h : m.raw = []) :
+    EncAgree (fun r => { m with raw := r }) m (certificateVerifyMsg.marshal m)
+      (encCertificateVerify codesT ⟨abs m.signature⟩) :=
+  tie_enc_certificateVerify m h
+
+/-- **`serverKeyExchangeMsg.marshal`** = `encKeyMsg` (hand-written: no error, no panic; the length bytes truncate) -/
+theorem C14_src_enc_serverKeyExchange_tlcp (m : serverKeyExchangeMsg) (h : m.raw = []) :
+    ∃ bytes, serverKeyExchangeMsg.marshal m = .ok ({ m with raw := bytes }, bytes, none) ∧
+      encKeyMsg codesT.tServerKeyExchange ⟨abs m.key⟩ = some (abs bytes) :=
+  tie_enc_serverKeyExchange m h
+
+/-- **`clientKeyExchangeMsg.marshal`** = `encKeyMsg` -/
+theorem C14_src_enc_clientKeyExchange_tlcp (m : clientKeyExchangeMsg) (h : m.raw = []) :
+    ∃ bytes, clientKeyExchangeMsg.marshal m = .ok ({ m with raw := bytes }, bytes, none) ∧
+      encKeyMsg codesT.tClientKeyExchange ⟨abs m.ciphertext⟩ = some (abs bytes) :=
+  tie_enc_clientKeyExchange m h
+
+/-- **`serverHelloDoneMsg.marshal`** = `encServerHelloDone` (no fields, no cache) -/
+theorem C14_src_enc_serverHelloDone_tlcp (m : serverHelloDoneMsg) :
+    serverHelloDoneMsg.marshal m = .ok ([14#8, 0#8, 0#8, 0#8], none) ∧
+      encServerHelloDone codesT = some (abs [14#8, 0#8, 0#8, 0#8]) :=
+  tie_enc_serverHelloDone m
+
+/-- **`serverHelloMsg.marshal`** = `encServerHello`, all three extensions -/
+theorem C14_src_enc_serverHello_tlcp (m : serverHelloMsg) (h : m.raw = []) :
+    EncAgree (fun r => { m with raw := r }) m (serverHelloMsg.marshal m) (encServerHello codesT (absSH m)) :=
+  tie_enc_serverHello m h
+
+/-- **`clientHelloMsg.marshal`** = `encClientHello`, all seven extensions -/
+theorem C14_src_enc_clientHello_tlcp (m : clientHelloMsg) (h : m.raw = []) :
+    EncAgree (fun r => { m with raw := r }) m (clientHelloMsg.marshal m) (encClientHello codesT (absCH m)) :=
+  tie_enc_clientHello m h
+
+/-- per extension of the ClientHello: each guarded block of the translated marshal appends, under `bld`, exactly
+the model's encoding of that extension (the whole `exts` builder is `encClientExtensions`) -/
+theorem C14_src_enc_clientHello_extensions_tlcp (m : clientHelloMsg) (e : cbBuilder) :
+    bld (chF1 m e) = oapp (bld e) (encSNI codesT (abs m.serverName)) ∧
+    bld (chF2 m e) = oapp (bld e)
+      (ext codesT.extTrustedCAKeys (vec16x2 (concatMapM (encTA codesT) (m.trustedAuthorities.map absTA)))) ∧
+    bld (chF3 e) = oapp (bld e) (ext codesT.extStatusRequest (some [1, 0, 0, 0, 0])) ∧
+    bld (chF4 m e) = oapp (bld e) (ext codesT.extSupportedCurves (vec16x2 (some (w16s (m.supportedCurves.map w16))))) ∧
+    bld (chF5 m e) = oapp (bld e)
+      (ext codesT.extSignatureAlgorithms (vec16x2 (some (w16s (m.supportedSignatureAlgorithms.map w16))))) ∧
+    bld (chF6 m e) = oapp (bld e) (ext codesT.extALPN (vec16x2 (concatMapM alpnItem (m.alpnProtocols.map abs)))) ∧
+    bld (chF7 m e) = oapp (bld e) (ext codesT.extClientID (vec16x2 (some (abs m.ibsdhClientID)))) ∧
+    bld (chExts m) = encClientExtensions codesT (absCH m) :=
+  ⟨bld_chF1 m e, bld_chF2 m e, bld_chF3 e, bld_chF4 m e, bld_chF5 m e, bld_chF6 m e, bld_chF7 m e, bld_chExts m⟩
+
+/-- with the cache filled every tlcp marshal returns `raw`, a nil error, and leaves the object alone -/
+theorem C14_src_enc_cached_tlcp :
+    (∀ m : finishedMsg, m.raw ≠ [] → finishedMsg.marshal m = (m, m.raw, none)) ∧
+    (∀ m : certificateVerifyMsg, m.raw ≠ [] → certificateVerifyMsg.marshal m = (m, m.raw, none)) ∧
+    (∀ m : serverKeyExchangeMsg, m.raw ≠ [] → serverKeyExchangeMsg.marshal m = .ok (m, m.raw, none)) ∧
+    (∀ m : clientKeyExchangeMsg, m.raw ≠ [] → clientKeyExchangeMsg.marshal m = .ok (m, m.raw, none)) ∧
+    (∀ m : serverHelloMsg, m.raw ≠ [] → serverHelloMsg.marshal m = (m, m.raw, none)) ∧
+    (∀ m : clientHelloMsg, m.raw ≠ [] → clientHelloMsg.marshal m = (m, m.raw, none)) :=
+  ⟨marshal_finished_cached, marshal_certificateVerify_cached, marshal_serverKeyExchange_cached,
+    marshal_clientKeyExchange_cached, marshal_serverHello_cached, marshal_clientHello_cached⟩
+
+/-! ### which objects are refused -/
+
+/-- `finishedMsg.marshal` fails exactly when verify_data does not fit the 24-bit length -/
+theorem C14_src_enc_ok_iff_finished_tlcp (m : finishedMsg) (h : m.raw = []) :
+    (finishedMsg.marshal m).2.2 = none ↔ m.verifyData.length < 16777216 := by
+  rw [encAgree_err_iff (C14_src_enc_finished_tlcp m h), encFinished_isSome]
+  simp
+
+/-- `certificateVerifyMsg.marshal` fails exactly when the signature does not fit the 16-bit length -/
+theorem C14_src_enc_ok_iff_certificateVerify_tlcp (m : certificateVerifyMsg) (h : m.raw = []) :
+    (certificateVerifyMsg.marshal m).2.2 = none ↔ m.signature.length < 65536 := by
+  rw [encAgree_err_iff (C14_src_enc_certificateVerify_tlcp m h), encCertificateVerify_isSome]
+  simp
+
+/-- the hello marshals fail exactly when the model refuses … -/
+theorem C14_src_enc_ok_iff_hello_tlcp :
+    (∀ m : serverHelloMsg, m.raw = [] →
+      ((serverHelloMsg.marshal m).2.2 = none ↔ (encServerHello codesT (absSH m)).isSome = true)) ∧
+    (∀ m : clientHelloMsg, m.raw = [] →
+      ((clientHelloMsg.marshal m).2.2 = none ↔ (encClientHello codesT (absCH m)).isSome = true)) :=
+  ⟨fun m h => encAgree_err_iff (C14_src_enc_serverHello_tlcp m h),
+   fun m h => encAgree_err_iff (C14_src_enc_clientHello_tlcp m h)⟩
+
+/-- … for instance a random that is not 32 bytes, or a session id that does not fit its 8-bit length:
+builder error, no bytes, object untouched -/
+theorem C14_src_enc_refuses_hello_tlcp :
+    (∀ m : serverHelloMsg, m.raw = [] → m.random.length ≠ 32 ∨ 256 ≤ m.sessionId.length →
+      serverHelloMsg.marshal m = (m, [], some Go.Error.other)) ∧
+    (∀ m : clientHelloMsg, m.raw = [] → m.random.length ≠ 32 ∨ 256 ≤ m.sessionId.length →
+      clientHelloMsg.marshal m = (m, [], some Go.Error.other)) := by
+  refine ⟨fun m h hb => ?_, fun m h hb => ?_⟩
+  · have ha := C14_src_enc_serverHello_tlcp m h
+    have hn : encServerHello codesT (absSH m) = none := by
+      rcases hb with hb | hb
+      · exact encServerHello_random _ _ (by rw [show codesT.randomLen = 32 from rfl]; simpa [absSH] using hb)
+      · exact encServerHello_sessionId _ _ (by simpa [absSH] using hb)
+    rw [hn] at ha; exact ha
+  · have ha := C14_src_enc_clientHello_tlcp m h
+    have hn : encClientHello codesT (absCH m) = none := by
+      rcases hb with hb | hb
+      · exact encClientHello_random _ _ (by rw [show codesT.randomLen = 32 from rfl]; simpa [absCH] using hb)
+      · exact encClientHello_sessionId _ _ (by simpa [absCH] using hb)
+    rw [hn] at ha; exact ha
+
+/-- every in-range ServerHello / ClientHello object (the spec's `wf…`, through the abstraction) is encoded:
+nil error (`C14_roundtrip_serverHello_tlcp`, `C14_roundtrip_clientHello_tlcp` through the tie) -/
+theorem C14_src_enc_wf_hello_tlcp :
+    (∀ m : serverHelloMsg, m.raw = [] → Spec.Codec.wfServerHello (absSH m) = true →
+      (serverHelloMsg.marshal m).2.2 = none) ∧
+    (∀ m : clientHelloMsg, m.raw = [] → Spec.Codec.wfClientHello .tlcp (absCH m) = true →
+      (clientHelloMsg.marshal m).2.2 = none) := by
+  refine ⟨fun m h hw => ?_, fun m h hw => ?_⟩
+  · obtain ⟨b, he, _⟩ := C14_roundtrip_serverHello_tlcp (absSH m) hw
+    exact (C14_src_enc_ok_iff_hello_tlcp.1 m h).2 (by rw [he]; rfl)
+  · obtain ⟨b, he, _⟩ := C14_roundtrip_clientHello_tlcp (absCH m) hw
+    exact (C14_src_enc_ok_iff_hello_tlcp.2 m h).2 (by rw [he]; rfl)
+
+/-! ### a successful marshal returns a complete message -/
+
+/-- what a successful cryptobyte-based tlcp marshal returns is a complete message of its type: type byte,
+24-bit length equal to the number of bytes that follow (`complete` is the predicate the translated
+`tlcpIsCompleteMessage` computes: `Tie.UnmarshalTlcp.tie_isComplete`), and it is what `raw` now holds -/
+theorem C14_src_enc_complete_tlcp :
+    (∀ (m m' : finishedMsg) bytes, m.raw = [] → finishedMsg.marshal m = (m', bytes, none) →
+      Tie.UnmarshalTlcp.complete bytes 20#8 = true ∧ m'.raw = bytes ∧ m'.verifyData = m.verifyData) ∧
+    (∀ (m m' : certificateVerifyMsg) bytes, m.raw = [] → certificateVerifyMsg.marshal m = (m', bytes, none) →
+      Tie.UnmarshalTlcp.complete bytes 15#8 = true ∧ m'.raw = bytes ∧ m'.signature = m.signature) ∧
+    (∀ (m m' : serverHelloMsg) bytes, m.raw = [] → serverHelloMsg.marshal m = (m', bytes, none) →
+      Tie.UnmarshalTlcp.complete bytes 2#8 = true ∧ m' = { m with raw := bytes }) ∧
+    (∀ (m m' : clientHelloMsg) bytes, m.raw = [] → clientHelloMsg.marshal m = (m', bytes, none) →
+      Tie.UnmarshalTlcp.complete bytes 1#8 = true ∧ m' = { m with raw := bytes }) := by
+  refine ⟨fun m m' bytes h hm => ?_, fun m m' bytes h hm => ?_, fun m m' bytes h hm => ?_, fun m m' bytes h hm => ?_⟩
+  · have ha := C14_src_enc_finished_tlcp m h
+    cases ho : encFinished codesT ⟨abs m.verifyData⟩ with
+    | none => rw [ho, hm] at ha; simp [EncAgree] at ha
+    | some b =>
+      rw [ho, hm] at ha
+      obtain ⟨bs, e, hab⟩ := ha
+      simp only [Prod.mk.injEq] at e
+      obtain ⟨e1, e2, _⟩ := e
+      subst e2
+      refine ⟨complete_of_framed _ _ codesT.tFinished (by decide) (by rw [hab]; exact framed_finished _ _ ho), ?_, ?_⟩ <;> rw [e1]
+  · have ha := C14_src_enc_certificateVerify_tlcp m h
+    cases ho : encCertificateVerify codesT ⟨abs m.signature⟩ with
+    | none => rw [ho, hm] at ha; simp [EncAgree] at ha
+    | some b =>
+      rw [ho, hm] at ha
+      obtain ⟨bs, e, hab⟩ := ha
+      simp only [Prod.mk.injEq] at e
+      obtain ⟨e1, e2, _⟩ := e
+      subst e2
+      refine ⟨complete_of_framed _ _ codesT.tCertificateVerify (by decide) (by rw [hab]; exact framed_certificateVerify _ _ ho), ?_, ?_⟩ <;>
+        rw [e1]
+  · have ha := C14_src_enc_serverHello_tlcp m h
+    cases ho : encServerHello codesT (absSH m) with
+    | none => rw [ho, hm] at ha; simp [EncAgree] at ha
+    | some b =>
+      rw [ho, hm] at ha
+      obtain ⟨bs, e, hab⟩ := ha
+      simp only [Prod.mk.injEq] at e
+      obtain ⟨e1, e2, _⟩ := e
+      subst e2
+      exact ⟨complete_of_framed _ _ codesT.tServerHello (by decide) (by rw [hab]; exact framed_serverHello _ _ ho), e1⟩
+  · have ha := C14_src_enc_clientHello_tlcp m h
+    cases ho : encClientHello codesT (absCH m) with
+    | none => rw [ho, hm] at ha; simp [EncAgree] at ha
+    | some b =>
+      rw [ho, hm] at ha
+      obtain ⟨bs, e, hab⟩ := ha
+      simp only [Prod.mk.injEq] at e
+      obtain ⟨e1, e2, _⟩ := e
+      subst e2
+      exact ⟨complete_of_framed _ _ codesT.tClientHello (by decide) (by rw [hab]; exact framed_clientHello _ _ ho), e1⟩
+
+/-- the hand-written key-exchange marshals return a complete message as long as the blob fits 24 bits (above
+that the length bytes truncate: the message is then NOT complete — the Go code has no check) -/
+theorem C14_src_enc_complete_keyExchange_tlcp :
+    (∀ m : serverKeyExchangeMsg, m.raw = [] → m.key.length < 16777216 →
+      ∃ bytes, serverKeyExchangeMsg.marshal m = .ok ({ m with raw := bytes }, bytes, none) ∧
+        Tie.UnmarshalTlcp.complete bytes 12#8 = true) ∧
+    (∀ m : clientKeyExchangeMsg, m.raw = [] → m.ciphertext.length < 16777216 →
+      ∃ bytes, clientKeyExchangeMsg.marshal m = .ok ({ m with raw := bytes }, bytes, none) ∧
+        Tie.UnmarshalTlcp.complete bytes 16#8 = true) := by
+  refine ⟨fun m h hl => ?_, fun m h hl => ?_⟩
+  · obtain ⟨bytes, e, hm⟩ := C14_src_enc_serverKeyExchange_tlcp m h
+    exact ⟨bytes, e, complete_of_framed _ _ codesT.tServerKeyExchange (by decide)
+      (framed_keyMsg _ ⟨abs m.key⟩ (by simpa using hl) hm)⟩
+  · obtain ⟨bytes, e, hm⟩ := C14_src_enc_clientKeyExchange_tlcp m h
+    exact ⟨bytes, e, complete_of_framed _ _ codesT.tClientKeyExchange (by decide)
+      (framed_keyMsg _ ⟨abs m.ciphertext⟩ (by simpa using hl) hm)⟩
+
+/-! ### round trip on translated code (encoder tie ∘ model round trip ∘ decoder tie) -/
+
+/-- Finished: `unmarshal (marshal m)` accepts and returns `verifyData`, whatever the receiver `m0` held -/
+theorem C14_src_enc_roundtrip_finished_tlcp (m m0 : finishedMsg) (h : m.raw = []) (hl : m.verifyData.length = 12) :
+    ∃ bytes m', finishedMsg.marshal m = ({ m with raw := bytes }, bytes, none) ∧
+      finishedMsg.unmarshal m0 bytes = .ok (m', true) ∧ m'.verifyData = m.verifyData := by
+  have hw : Spec.Codec.wfBlob .finished ⟨abs m.verifyData⟩ = true := by simp [Spec.Codec.wfBlob, hl]
+  obtain ⟨b, h1, h2, _⟩ := C14_roundtrip_finished_tlcp ⟨abs m.verifyData⟩ hw
+  obtain ⟨bytes, m', e1, e2, e3⟩ := enc_rt (C14_src_enc_finished_tlcp m h) ⟨b, h1, h2⟩
+    (dec_of_agree (fun d => C14_src_finished_tlcp m0 d))
+  exact ⟨bytes, m', e1, e2, abs_injective (by simpa using e3)⟩
+
+/-- CertificateVerify -/
+theorem C14_src_enc_roundtrip_certificateVerify_tlcp (m m0 : certificateVerifyMsg) (h : m.raw = [])
+    (hl : m.signature.length < 65536) :
+    ∃ bytes m', certificateVerifyMsg.marshal m = ({ m with raw := bytes }, bytes, none) ∧
+      certificateVerifyMsg.unmarshal m0 bytes = .ok (m', true) ∧ m'.signature = m.signature := by
+  have hw : Spec.Codec.wfBlob .certificateVerify ⟨abs m.signature⟩ = true := by simp [Spec.Codec.wfBlob, hl]
+  obtain ⟨b, h1, h2, _⟩ := C14_roundtrip_certificateVerify_tlcp ⟨abs m.signature⟩ hw
+  obtain ⟨bytes, m', e1, e2, e3⟩ := enc_rt (C14_src_enc_certificateVerify_tlcp m h) ⟨b, h1, h2⟩
+    (dec_of_agree (fun d => C14_src_certificateVerify_tlcp m0 d))
+  exact ⟨bytes, m', e1, e2, abs_injective (by simpa using e3)⟩
+
+/-- ServerKeyExchange (the decoder is the hand-indexed one of the group `Src.tlcp`) -/
+theorem C14_src_enc_roundtrip_serverKeyExchange_tlcp (m : serverKeyExchangeMsg) (m0 : Src.tlcp.serverKeyExchangeMsg)
+    (h : m.raw = []) (hl : m.key.length < 16777216) :
+    ∃ bytes m', serverKeyExchangeMsg.marshal m = .ok ({ m with raw := bytes }, bytes, none) ∧
+      Src.tlcp.serverKeyExchangeMsg.unmarshal m0 bytes = .ok (m', true) ∧ m'.key = m.key := by
+  have hw : Spec.Codec.wfBlob .serverKeyExchange ⟨abs m.key⟩ = true := by simp [Spec.Codec.wfBlob, hl]
+  obtain ⟨b, h1, h2, _⟩ := C14_roundtrip_serverKeyExchange_tlcp ⟨abs m.key⟩ hw
+  obtain ⟨bytes, m', e1, e2, e3⟩ := enc_rt_hand (C14_src_enc_serverKeyExchange_tlcp m h) ⟨b, h1, h2⟩
+    (dec_of_agree (fun d => C14_src_serverKeyExchange_tlcp m0 d))
+  exact ⟨bytes, m', e1, e2, abs_injective (by simpa using e3)⟩
+
+/-- ClientKeyExchange -/
+theorem C14_src_enc_roundtrip_clientKeyExchange_tlcp (m : clientKeyExchangeMsg) (m0 : Src.tlcp.clientKeyExchangeMsg)
+    (h : m.raw = []) (hl : m.ciphertext.length < 16777216) :
+    ∃ bytes m', clientKeyExchangeMsg.marshal m = .ok ({ m with raw := bytes }, bytes, none) ∧
+      Src.tlcp.clientKeyExchangeMsg.unmarshal m0 bytes = .ok (m', true) ∧ m'.ciphertext = m.ciphertext := by
+  have hw : Spec.Codec.wfBlob .clientKeyExchange ⟨abs m.ciphertext⟩ = true := by simp [Spec.Codec.wfBlob, hl]
+  obtain ⟨b, h1, h2, _⟩ := C14_roundtrip_clientKeyExchange_tlcp ⟨abs m.ciphertext⟩ hw
+  obtain ⟨bytes, m', e1, e2, e3⟩ := enc_rt_hand (C14_src_enc_clientKeyExchange_tlcp m h) ⟨b, h1, h2⟩
+    (dec_of_agree (fun d => C14_src_clientKeyExchange_tlcp m0 d))
+  exact ⟨bytes, m', e1, e2, abs_injective (by simpa using e3)⟩
+
+/-- ServerHelloDone -/
+theorem C14_src_enc_roundtrip_serverHelloDone_tlcp (m : serverHelloDoneMsg) (m0 : Src.tlcp.serverHelloDoneMsg) :
+    ∃ bytes, serverHelloDoneMsg.marshal m = .ok (bytes, none) ∧
+      Src.tlcp.serverHelloDoneMsg.unmarshal m0 bytes = .ok true :=
+  ⟨_, (C14_src_enc_serverHelloDone_tlcp m).1, rfl⟩
+
+/-- ServerHello: every in-range object; the decoded object has the same model view (all nine fields) and its
+`raw` is the encoding -/
+theorem C14_src_enc_roundtrip_serverHello_tlcp (m m0 : serverHelloMsg) (h : m.raw = [])
+    (hw : Spec.Codec.wfServerHello (absSH m) = true) :
+    ∃ bytes m', serverHelloMsg.marshal m = ({ m with raw := bytes }, bytes, none) ∧
+      serverHelloMsg.unmarshal m0 bytes = .ok (m', true) ∧ Tie.CodecSHModel.viewT m' = absSH m ∧ m'.raw = bytes := by
+  obtain ⟨b, he, hrt⟩ := C14_src_roundtrip_serverHello_tlcp (absSH m) hw
+  have ha := C14_src_enc_serverHello_tlcp m h
+  rw [he] at ha
+  obtain ⟨bytes, e, hab⟩ := ha
+  obtain ⟨m', e1, e2, e3⟩ := hrt m0 bytes hab
+  exact ⟨bytes, m', e, e1, e2, e3⟩
+
+/-- ClientHello: every in-range object, all seven extensions; the decoded object has the same model view -/
+theorem C14_src_enc_roundtrip_clientHello_tlcp (m m0 : clientHelloMsg) (h : m.raw = [])
+    (hw : Spec.Codec.wfClientHello .tlcp (absCH m) = true) :
+    ∃ bytes m', clientHelloMsg.marshal m = ({ m with raw := bytes }, bytes, none) ∧
+      clientHelloMsg.unmarshal m0 bytes = .ok (m', true) ∧ Tie.CodecCHCodec.fieldsT m' = absCH m := by
+  obtain ⟨b, he, hrt⟩ := C14_src_roundtrip_clientHello_tlcp (absCH m) hw
+  have ha := C14_src_enc_clientHello_tlcp m h
+  rw [he] at ha
+  obtain ⟨bytes, e, hab⟩ := ha
+  obtain ⟨m', e1, e2⟩ := hrt m0 bytes hab
+  exact ⟨bytes, m', e, e1, e2⟩
+
+-- non-vacuity: concrete objects through the translated encoders
+example : (finishedMsg.marshal { verifyData := [1, 2, 3] }).2 = ([20, 0, 0, 3, 1, 2, 3], none) := by decide
+example : (certificateVerifyMsg.marshal { signature := [0x30, 1] }).2 = ([15, 0, 0, 4, 0, 2, 0x30, 1], none) := by decide
+example : (clientHelloMsg.marshal { random := [1, 2, 3] }).2 = ([], some Go.Error.other) := by decide
+example : (serverHelloMsg.marshal { vers := 0x0101#16, random := List.replicate 32 7#8, cipherSuite := 0xe053#16, alpnProtocol := [0x68, 0x32], serverNameAck := true }).2 =
+    ([2, 0, 0, 53, 1, 1] ++ List.replicate 32 7#8 ++ [0, 0xe0, 0x53, 0, 0, 13, 0, 16, 0, 5, 0, 3, 2, 0x68, 0x32, 0, 0, 0, 0],
+      none) := by decide
+example : (serverHelloMsg.marshal { raw := [9, 9], vers := 0x0101#16 }).2 = ([9, 9], none) := by decide
+
+end SrcEncTlcp
+
+/-! ## dtlcp -/
+
+section SrcEncDtlcp
+open Gotlcp.Model.CodecDtlcp
+open Gotlcp.Tie.CodecEnc (abs_injective enc_rt_hand dec_of_agreeD)
+open Gotlcp.Tie.CodecEncDtlcp
+open Gotlcp.Src.dtlcp.codec
+
+/-- **`dtlcpMarshalHeader`**: never fails; the model's 12-byte header (`fragLen = 0` means "the body length") in
+front of the body -/
+theorem C14_src_enc_marshalHeader_dtlcp (t : BitVec 8) (T : Nat) (hT : u8 T = UInt8.ofBitVec t) (body : List (BitVec 8))
+    (seq : BitVec 16) (fo fl : BitVec 32) :
+    ∃ x, dtlcpMarshalHeader t body seq fo fl = .ok (x, none) ∧
+      abs x = header T body.length (hdrView seq fo fl) ++ abs body :=
+  tie_marshalHeader t T hT body seq fo fl
+
+/-- `messageType` of every message object is its type code -/
+theorem C14_src_enc_messageType_dtlcp :
+    (∀ m, clientHelloMsg.messageType m = 1#8) ∧ (∀ m, serverHelloMsg.messageType m = 2#8) ∧
+    (∀ m, helloVerifyRequestMsg.messageType m = 3#8) ∧ (∀ m, certificateMsg.messageType m = 11#8) ∧
+    (∀ m, serverKeyExchangeMsg.messageType m = 12#8) ∧ (∀ m, serverHelloDoneMsg.messageType m = 14#8) ∧
+    (∀ m, certificateVerifyMsg.messageType m = 15#8) ∧ (∀ m, clientKeyExchangeMsg.messageType m = 16#8) ∧
+    (∀ m, finishedMsg.messageType m = 20#8) :=
+  messageTypes
+
+/-- **`finishedMsg.marshal`** (hand-written in dtlcp: no error, no panic) -/
+theorem C14_src_enc_finished_dtlcp (m : finishedMsg) (h : m.raw = []) :
+    ∃ bytes, finishedMsg.marshal m = .ok ({ m with raw := bytes }, bytes, none) ∧
+      encFinished codesD (hdrView m.messageSeq m.fragmentOffset m.fragmentLength) ⟨abs m.verifyData⟩ = some (abs bytes) :=
+  tie_enc_finished m h
+
+/-- **`certificateVerifyMsg.marshal`** (the 16-bit signature length truncates) -/
+theorem C14_src_enc_certificateVerify_dtlcp (m : certificateVerifyMsg) (h : m.raw = []) :
+    ∃ bytes, certificateVerifyMsg.marshal m = .ok ({ m with raw := bytes }, bytes, none) ∧
+      encCertificateVerify codesD (hdrView m.messageSeq m.fragmentOffset m.fragmentLength) ⟨abs m.signature⟩ =
+        some (abs bytes) :=
+  tie_enc_certificateVerify m h
+
+/-- **`helloVerifyRequestMsg.marshal`** (the 8-bit cookie length truncates) -/
+theorem C14_src_enc_helloVerifyRequest_dtlcp (m : helloVerifyRequestMsg) (h : m.raw = []) :
+    ∃ bytes, helloVerifyRequestMsg.marshal m = .ok ({ m with raw := bytes }, bytes, none) ∧
+      encHelloVerifyRequest codesD (hdrView m.messageSeq m.fragmentOffset m.fragmentLength) (absHVR m) =
+        some (abs bytes) :=
+  tie_enc_helloVerifyRequest m h
+
+/-- **`serverKeyExchangeMsg.marshal`** -/
+theorem C14_src_enc_serverKeyExchange_dtlcp (m : serverKeyExchangeMsg) (h : m.raw = []) :
+    ∃ bytes, serverKeyExchangeMsg.marshal m = .ok ({ m with raw := bytes }, bytes, none) ∧
+      encKeyMsg codesD.tServerKeyExchange (hdrView m.messageSeq m.fragmentOffset m.fragmentLength) ⟨abs m.key⟩ =
+        some (abs bytes) :=
+  tie_enc_serverKeyExchange m h
+
+/-- **`clientKeyExchangeMsg.marshal`** -/
+theorem C14_src_enc_clientKeyExchange_dtlcp (m : clientKeyExchangeMsg) (h : m.raw = []) :
+    ∃ bytes, clientKeyExchangeMsg.marshal m = .ok ({ m with raw := bytes }, bytes, none) ∧
+      encKeyMsg codesD.tClientKeyExchange (hdrView m.messageSeq m.fragmentOffset m.fragmentLength) ⟨abs m.ciphertext⟩ =
+        some (abs bytes) :=
+  tie_enc_clientKeyExchange m h
+
+/-- **`serverHelloDoneMsg.marshal`** (writes type and message_seq only) -/
+theorem C14_src_enc_serverHelloDone_dtlcp (m : serverHelloDoneMsg) (h : m.raw = []) :
+    ∃ bytes, serverHelloDoneMsg.marshal m = .ok ({ m with raw := bytes }, bytes, none) ∧
+      encServerHelloDone codesD (hdrView m.messageSeq m.fragmentOffset m.fragmentLength) = some (abs bytes) :=
+  tie_enc_serverHelloDone m h
+
+/-- **`serverHelloMsg.marshal`** = `Model.CodecDtlcp.encServerHello` (cryptobyte body, `dtlcpMarshalHeader`); no panic -/
+theorem C14_src_enc_serverHello_dtlcp (m : serverHelloMsg) (h : m.raw = []) :
+    EncAgreeE (fun r => { m with raw := r }) m (serverHelloMsg.marshal m)
+      (Model.CodecDtlcp.encServerHello codesD (hdrView m.messageSeq m.fragmentOffset m.fragmentLength) (absSH m)) :=
+  tie_enc_serverHello m h
+
+/-- **`clientHelloMsg.marshal`** = `Model.CodecDtlcp.encClientHello` (with the cookie vector); no panic -/
+theorem C14_src_enc_clientHello_dtlcp (m : clientHelloMsg) (h : m.raw = []) :
+    EncAgreeE (fun r => { m with raw := r }) m (clientHelloMsg.marshal m)
+      (Model.CodecDtlcp.encClientHello codesD (hdrView m.messageSeq m.fragmentOffset m.fragmentLength) (absCH m)) :=
+  tie_enc_clientHello m h
+
+/-- with the cache filled every dtlcp marshal returns `raw`, a nil error, and leaves the object alone -/
+theorem C14_src_enc_cached_dtlcp :
+    (∀ m : finishedMsg, m.raw ≠ [] → finishedMsg.marshal m = .ok (m, m.raw, none)) ∧
+    (∀ m : certificateVerifyMsg, m.raw ≠ [] → certificateVerifyMsg.marshal m = .ok (m, m.raw, none)) ∧
+    (∀ m : helloVerifyRequestMsg, m.raw ≠ [] → helloVerifyRequestMsg.marshal m = .ok (m, m.raw, none)) ∧
+    (∀ m : serverKeyExchangeMsg, m.raw ≠ [] → serverKeyExchangeMsg.marshal m = .ok (m, m.raw, none)) ∧
+    (∀ m : clientKeyExchangeMsg, m.raw ≠ [] → clientKeyExchangeMsg.marshal m = .ok (m, m.raw, none)) ∧
+    (∀ m : serverHelloDoneMsg, m.raw ≠ [] → serverHelloDoneMsg.marshal m = .ok (m, m.raw, none)) ∧
+    (∀ m : serverHelloMsg, m.raw ≠ [] → serverHelloMsg.marshal m = .ok (m, m.raw, none)) ∧
+    (∀ m : clientHelloMsg, m.raw ≠ [] → clientHelloMsg.marshal m = .ok (m, m.raw, none)) :=
+  ⟨marshal_finished_cached, marshal_certificateVerify_cached, marshal_helloVerifyRequest_cached,
+    marshal_serverKeyExchange_cached, marshal_clientKeyExchange_cached, marshal_serverHelloDone_cached,
+    marshal_serverHello_cached, marshal_clientHello_cached⟩
+
+/-- every in-range dtlcp hello object is encoded (nil error) -/
+theorem C14_src_enc_wf_hello_dtlcp :
+    (∀ m : serverHelloMsg, m.raw = [] → Spec.Codec.wfServerHello (absSH m) = true →
+      ∃ bytes, serverHelloMsg.marshal m = .ok ({ m with raw := bytes }, bytes, none)) ∧
+    (∀ m : clientHelloMsg, m.raw = [] → Spec.Codec.wfClientHello .dtlcp (absCH m) = true →
+      ∃ bytes, clientHelloMsg.marshal m = .ok ({ m with raw := bytes }, bytes, none)) := by
+  refine ⟨fun m h hw => ?_, fun m h hw => ?_⟩
+  · have ha := C14_src_enc_serverHello_dtlcp m h
+    obtain ⟨body, hb, _⟩ := Lemmas.CodecHello.rt_serverHelloBody codesD helloCodesD (absSH m) (Lemmas.CodecHello.shwf_of hw)
+    unfold Model.CodecDtlcp.encServerHello at ha
+    rw [hb] at ha
+    obtain ⟨bytes, e, _⟩ := ha
+    exact ⟨bytes, e⟩
+  · have ha := C14_src_enc_clientHello_dtlcp m h
+    obtain ⟨body, hb, _⟩ := Lemmas.CodecHello.rt_clientHelloBody codesD helloCodesD (by decide) (by decide) true (absCH m)
+      (Lemmas.CodecHello.chwf_of hw)
+    unfold Model.CodecDtlcp.encClientHello at ha
+    rw [hb] at ha
+    obtain ⟨bytes, e, _⟩ := ha
+    exact ⟨bytes, e⟩
+
+/-- an object that describes a complete message (`fragment_offset = 0`, `fragment_length` 0 or the body
+length, body below 2^24) is encoded as one: the output passes the predicate `completeD` that the translated
+`dtlcpIsCompleteMessage` computes (`Tie.UnmarshalDtlcpCodec.isComplete_eq`) -/
+theorem C14_src_enc_complete_dtlcp :
+    (∀ m : finishedMsg, m.raw = [] →
+      Spec.Codec.wfDHdr (hdrView m.messageSeq m.fragmentOffset m.fragmentLength) m.verifyData.length = true →
+      ∃ bytes, finishedMsg.marshal m = .ok ({ m with raw := bytes }, bytes, none) ∧
+        Tie.UnmarshalDtlcpCodec.completeD bytes 20#8 = true) ∧
+    (∀ m : serverKeyExchangeMsg, m.raw = [] →
+      Spec.Codec.wfDHdr (hdrView m.messageSeq m.fragmentOffset m.fragmentLength) m.key.length = true →
+      ∃ bytes, serverKeyExchangeMsg.marshal m = .ok ({ m with raw := bytes }, bytes, none) ∧
+        Tie.UnmarshalDtlcpCodec.completeD bytes 12#8 = true) ∧
+    (∀ m : clientKeyExchangeMsg, m.raw = [] →
+      Spec.Codec.wfDHdr (hdrView m.messageSeq m.fragmentOffset m.fragmentLength) m.ciphertext.length = true →
+      ∃ bytes, clientKeyExchangeMsg.marshal m = .ok ({ m with raw := bytes }, bytes, none) ∧
+        Tie.UnmarshalDtlcpCodec.completeD bytes 16#8 = true) := by
+  refine ⟨fun m h hw => ?_, fun m h hw => ?_, fun m h hw => ?_⟩
+  · obtain ⟨bytes, e, hm⟩ := C14_src_enc_finished_dtlcp m h
+    refine ⟨bytes, e, completeD_of_header bytes 20#8 codesD.tFinished (by decide) _ (abs m.verifyData) (by simpa using hw) ?_⟩
+    unfold Model.CodecDtlcp.encFinished at hm
+    exact (Option.some.inj hm).symm
+  · obtain ⟨bytes, e, hm⟩ := C14_src_enc_serverKeyExchange_dtlcp m h
+    refine ⟨bytes, e, completeD_of_header bytes 12#8 codesD.tServerKeyExchange (by decide) _ (abs m.key) (by simpa using hw) ?_⟩
+    unfold Model.CodecDtlcp.encKeyMsg at hm
+    exact (Option.some.inj hm).symm
+  · obtain ⟨bytes, e, hm⟩ := C14_src_enc_clientKeyExchange_dtlcp m h
+    refine ⟨bytes, e, completeD_of_header bytes 16#8 codesD.tClientKeyExchange (by decide) _ (abs m.ciphertext) (by simpa using hw) ?_⟩
+    unfold Model.CodecDtlcp.encKeyMsg at hm
+    exact (Option.some.inj hm).symm
+
+/-! ### round trip on translated code -/
+
+/-- Finished -/
+theorem C14_src_enc_roundtrip_finished_dtlcp (m m0 : finishedMsg) (h : m.raw = []) (hl : m.verifyData.length = 12)
+    (hw : Spec.Codec.wfDHdr (hdrView m.messageSeq m.fragmentOffset m.fragmentLength) 12 = true) :
+    ∃ bytes m', finishedMsg.marshal m = .ok ({ m with raw := bytes }, bytes, none) ∧
+      finishedMsg.unmarshal m0 bytes = .ok (m', true) ∧ m'.verifyData = m.verifyData ∧
+      hdrView m'.messageSeq m'.fragmentOffset m'.fragmentLength = ⟨W16.ofNat m.messageSeq.toNat, 0, 12⟩ := by
+  have hm : Spec.Codec.wfBlob .finished ⟨abs m.verifyData⟩ = true := by simp [Spec.Codec.wfBlob, hl]
+  obtain ⟨b, h1, h2, _⟩ := C14_roundtrip_finished_dtlcp (hdrView m.messageSeq m.fragmentOffset m.fragmentLength)
+    ⟨abs m.verifyData⟩ hm (by simpa [hl] using hw)
+  obtain ⟨bytes, m', e1, e2, e3⟩ := enc_rt_hand (C14_src_enc_finished_dtlcp m h) ⟨b, h1, h2⟩
+    (dec_of_agreeD (fun d => C14_src_finished_dtlcp m0 d))
+  simp only [Prod.mk.injEq, Blob.mk.injEq] at e3
+  refine ⟨bytes, m', e1, e2, abs_injective e3.2, ?_⟩
+  rw [e3.1]; simp [hdrView, hl]
+
+/-- CertificateVerify -/
+theorem C14_src_enc_roundtrip_certificateVerify_dtlcp (m m0 : certificateVerifyMsg) (h : m.raw = [])
+    (hl : m.signature.length < 65536)
+    (hw : Spec.Codec.wfDHdr (hdrView m.messageSeq m.fragmentOffset m.fragmentLength) (2 + m.signature.length) = true) :
+    ∃ bytes m', certificateVerifyMsg.marshal m = .ok ({ m with raw := bytes }, bytes, none) ∧
+      certificateVerifyMsg.unmarshal m0 bytes = .ok (m', true) ∧ m'.signature = m.signature ∧
+      hdrView m'.messageSeq m'.fragmentOffset m'.fragmentLength =
+        ⟨W16.ofNat m.messageSeq.toNat, 0, 2 + m.signature.length⟩ := by
+  have hm : Spec.Codec.wfBlob .certificateVerify ⟨abs m.signature⟩ = true := by simp [Spec.Codec.wfBlob, hl]
+  obtain ⟨b, h1, h2, _⟩ := C14_roundtrip_certificateVerify_dtlcp (hdrView m.messageSeq m.fragmentOffset m.fragmentLength)
+    ⟨abs m.signature⟩ hm (by simpa using hw)
+  obtain ⟨bytes, m', e1, e2, e3⟩ := enc_rt_hand (C14_src_enc_certificateVerify_dtlcp m h) ⟨b, h1, h2⟩
+    (dec_of_agreeD (fun d => C14_src_certificateVerify_dtlcp m0 d))
+  simp only [Prod.mk.injEq, Blob.mk.injEq] at e3
+  refine ⟨bytes, m', e1, e2, abs_injective e3.2, ?_⟩
+  rw [e3.1]; simp [hdrView]
+
+/-- HelloVerifyRequest -/
+theorem C14_src_enc_roundtrip_helloVerifyRequest_dtlcp (m m0 : helloVerifyRequestMsg) (h : m.raw = [])
+    (hl : m.cookie.length < 256)
+    (hw : Spec.Codec.wfDHdr (hdrView m.messageSeq m.fragmentOffset m.fragmentLength) (3 + m.cookie.length) = true) :
+    ∃ bytes m', helloVerifyRequestMsg.marshal m = .ok ({ m with raw := bytes }, bytes, none) ∧
+      helloVerifyRequestMsg.unmarshal m0 bytes = .ok (m', true) ∧ m'.cookie = m.cookie ∧
+      W16.ofNat m'.serverVersion.toNat = W16.ofNat m.serverVersion.toNat := by
+  have hm : Spec.Codec.wfHelloVerifyRequest (absHVR m) = true := by simp [Spec.Codec.wfHelloVerifyRequest, absHVR, hl]
+  obtain ⟨b, h1, h2, _⟩ := C14_roundtrip_helloVerifyRequest_dtlcp (hdrView m.messageSeq m.fragmentOffset m.fragmentLength)
+    (absHVR m) hm (by simpa [absHVR] using hw)
+  obtain ⟨bytes, m', e1, e2, e3⟩ := enc_rt_hand (C14_src_enc_helloVerifyRequest_dtlcp m h) ⟨b, h1, h2⟩
+    (dec_of_agreeD (fun d => C14_src_helloVerifyRequest_dtlcp m0 d))
+  simp only [Prod.mk.injEq, absHVR, HelloVerifyRequest.mk.injEq] at e3
+  exact ⟨bytes, m', e1, e2, abs_injective e3.2.2, by rw [e3.2.1, w16_eq]⟩
+
+/-- ServerKeyExchange (decoder: the hand-indexed one of the group `Src.dtlcp`) -/
+theorem C14_src_enc_roundtrip_serverKeyExchange_dtlcp (m : serverKeyExchangeMsg) (m0 : Src.dtlcp.serverKeyExchangeMsg)
+    (h : m.raw = [])
+    (hw : Spec.Codec.wfDHdr (hdrView m.messageSeq m.fragmentOffset m.fragmentLength) m.key.length = true) :
+    ∃ bytes m', serverKeyExchangeMsg.marshal m = .ok ({ m with raw := bytes }, bytes, none) ∧
+      Src.dtlcp.serverKeyExchangeMsg.unmarshal m0 bytes = .ok (m', true) ∧ m'.key = m.key := by
+  obtain ⟨b, h1, h2, _⟩ := C14_roundtrip_serverKeyExchange_dtlcp (hdrView m.messageSeq m.fragmentOffset m.fragmentLength)
+    ⟨abs m.key⟩ (by simpa using hw)
+  obtain ⟨bytes, m', e1, e2, e3⟩ := enc_rt_hand (C14_src_enc_serverKeyExchange_dtlcp m h) ⟨b, h1, h2⟩
+    (dec_of_agreeD (fun d => C14_src_serverKeyExchange_dtlcp m0 d))
+  simp only [Prod.mk.injEq, Blob.mk.injEq] at e3
+  exact ⟨bytes, m', e1, e2, abs_injective e3.2⟩
+
+/-- ClientKeyExchange -/
+theorem C14_src_enc_roundtrip_clientKeyExchange_dtlcp (m : clientKeyExchangeMsg) (m0 : Src.dtlcp.clientKeyExchangeMsg)
+    (h : m.raw = [])
+    (hw : Spec.Codec.wfDHdr (hdrView m.messageSeq m.fragmentOffset m.fragmentLength) m.ciphertext.length = true) :
+    ∃ bytes m', clientKeyExchangeMsg.marshal m = .ok ({ m with raw := bytes }, bytes, none) ∧
+      Src.dtlcp.clientKeyExchangeMsg.unmarshal m0 bytes = .ok (m', true) ∧ m'.ciphertext = m.ciphertext := by
+  obtain ⟨b, h1, h2, _⟩ := C14_roundtrip_clientKeyExchange_dtlcp (hdrView m.messageSeq m.fragmentOffset m.fragmentLength)
+    ⟨abs m.ciphertext⟩ (by simpa using hw)
+  obtain ⟨bytes, m', e1, e2, e3⟩ := enc_rt_hand (C14_src_enc_clientKeyExchange_dtlcp m h) ⟨b, h1, h2⟩
+    (dec_of_agreeD (fun d => C14_src_clientKeyExchange_dtlcp m0 d))
+  simp only [Prod.mk.injEq, Blob.mk.injEq] at e3
+  exact ⟨bytes, m', e1, e2, abs_injective e3.2⟩
+
+/-- ServerHelloDone: the encoder ignores `fragmentOffset` / `fragmentLength`, so every object round-trips -/
+theorem C14_src_enc_roundtrip_serverHelloDone_dtlcp (m : serverHelloDoneMsg) (m0 : Src.dtlcp.serverHelloDoneMsg)
+    (h : m.raw = []) :
+    ∃ bytes m', serverHelloDoneMsg.marshal m = .ok ({ m with raw := bytes }, bytes, none) ∧
+      Src.dtlcp.serverHelloDoneMsg.unmarshal m0 bytes = .ok (m', true) ∧
+      hdrView m'.messageSeq m'.fragmentOffset m'.fragmentLength = ⟨W16.ofNat m.messageSeq.toNat, 0, 0⟩ := by
+  obtain ⟨b, h1, h2, _⟩ := C14_roundtrip_serverHelloDone_dtlcp (hdrView m.messageSeq m.fragmentOffset m.fragmentLength)
+  obtain ⟨bytes, m', e1, e2, e3⟩ := enc_rt_hand (C14_src_enc_serverHelloDone_dtlcp m h) ⟨b, h1, h2⟩
+    (dec_of_agreeD (fun d => C14_src_serverHelloDone_dtlcp m0 d))
+  simp only [Prod.mk.injEq, and_true] at e3
+  exact ⟨bytes, m', e1, e2, by rw [e3]; rfl⟩
+
+/-- ServerHello: in-range object describing a complete message -/
+theorem C14_src_enc_roundtrip_serverHello_dtlcp (m m0 : serverHelloMsg) (h : m.raw = [])
+    (hw : Spec.Codec.wfServerHello (absSH m) = true)
+    (hh : ∀ body, encServerHelloBody codesD (absSH m) = some body →
+      Spec.Codec.wfDHdr (hdrView m.messageSeq m.fragmentOffset m.fragmentLength) body.length = true) :
+    ∃ bytes m' body, serverHelloMsg.marshal m = .ok ({ m with raw := bytes }, bytes, none) ∧
+      serverHelloMsg.unmarshal m0 bytes = .ok (m', true) ∧ encServerHelloBody codesD (absSH m) = some body ∧
+      Tie.CodecSHModel.viewD m' = (⟨W16.ofNat m.messageSeq.toNat, 0, body.length⟩, absSH m) ∧ m'.raw = bytes := by
+  obtain ⟨b, body, hb, he, hrt⟩ := C14_src_roundtrip_serverHello_dtlcp
+    (hdrView m.messageSeq m.fragmentOffset m.fragmentLength) (absSH m) hw hh
+  have ha := C14_src_enc_serverHello_dtlcp m h
+  rw [he] at ha
+  obtain ⟨bytes, e, hab⟩ := ha
+  obtain ⟨m', e1, e2, e3⟩ := hrt m0 bytes hab
+  exact ⟨bytes, m', body, e, e1, hb, e2, e3⟩
+
+/-- ClientHello (with the cookie): in-range object describing a complete message -/
+theorem C14_src_enc_roundtrip_clientHello_dtlcp (m m0 : clientHelloMsg) (h : m.raw = [])
+    (hw : Spec.Codec.wfClientHello .dtlcp (absCH m) = true)
+    (hh : ∀ body, encClientHelloBody codesD true (absCH m) = some body →
+      Spec.Codec.wfDHdr (hdrView m.messageSeq m.fragmentOffset m.fragmentLength) body.length = true) :
+    ∃ bytes m' body, clientHelloMsg.marshal m = .ok ({ m with raw := bytes }, bytes, none) ∧
+      clientHelloMsg.unmarshal m0 bytes = .ok (m', true) ∧ encClientHelloBody codesD true (absCH m) = some body ∧
+      Tie.CodecCHCodec.fieldsD m' = (⟨W16.ofNat m.messageSeq.toNat, 0, body.length⟩, absCH m) := by
+  obtain ⟨b, body, hb, he, hrt⟩ := C14_src_roundtrip_clientHello_dtlcp
+    (hdrView m.messageSeq m.fragmentOffset m.fragmentLength) (absCH m) hw hh
+  have ha := C14_src_enc_clientHello_dtlcp m h
+  rw [he] at ha
+  obtain ⟨bytes, e, hab⟩ := ha
+  obtain ⟨m', e1, e2⟩ := hrt m0 bytes hab
+  exact ⟨bytes, m', body, e, e1, hb, e2⟩
+
+end SrcEncDtlcp
 
 end Gotlcp.Props.C14
